@@ -185,7 +185,23 @@ pub fn panic_signature(p: &str) -> String {
   let (msg, loc) = p.rsplit_once(" @ ").unwrap_or((p, ""));
   let file = loc.rsplit_once(':').map(|(f, _)| f).unwrap_or(loc);
   let file = file.rsplit_once("/repo/").map(|(_, f)| f).unwrap_or(file);
-  let msg: String = msg.chars().take(60).map(|c| if c.is_ascii_digit() { '#' } else { c }).collect();
+  // hashes and numbers are not part of *what* failed
+  let mut out = String::new();
+  let mut run = String::new();
+  for c in msg.chars().chain(std::iter::once(' ')) {
+    if c.is_ascii_hexdigit() {
+      run.push(c);
+      continue;
+    }
+    if run.len() >= 16 {
+      out.push_str("<hash>");
+    } else {
+      out.extend(run.chars().map(|d| if d.is_ascii_digit() { '#' } else { d }));
+    }
+    run.clear();
+    out.push(c);
+  }
+  let msg: String = out.trim_end().chars().take(60).collect();
   format!("{file}: {msg}")
 }
 
